@@ -56,7 +56,7 @@ def mk(g, bs, N, kind):
         return to_linear_operator(C) + RootLinearOperator(R), C + R @ R.mT
     if kind == "bcast":  # covariance without batch dims, broadcast against a batched mean
         C0 = util.spd(g, N)
-        return to_linear_operator(C0), C0
+        return to_linear_operator(C0), C0.expand(*bs, N, N)
     raise AssertionError(kind)
 
 
@@ -78,6 +78,14 @@ def cells(tier, seed):
         out.append({"what": "kl", "bs": list(bs), "k1": k1, "k2": k2, "N": 3})
     for bs, k1, N in itertools.product([(), (2,), (2, 3)], KINDS[:-1], Ns):
         out.append({"what": "ops", "bs": list(bs), "kind": k1, "N": N})
+    # a lazily held covariance WITHOUT batch dimensions under a batched mean (the distribution's batch shape is the mean's)
+    for bs in [(2,), (2, 3)]:
+        out.append({"what": "ops", "bs": list(bs), "kind": "bcast", "N": 3})
+        for other in ("dense", "bcast"):
+            out.append({"what": "kl", "bs": list(bs), "k1": "bcast", "k2": other, "N": 3})
+            out.append({"what": "kl", "bs": list(bs), "k1": other, "k2": "bcast", "N": 3})
+        for first in range(len(alpha(bs[0], tier)) - 1):
+            out.append({"what": "getitem", "bs": list(bs), "kind": "bcast", "N": 3, "first": first, "tier": tier})
     for bs, k1 in itertools.product([(), (2,), (2, 2)], KINDS[:-1]):
         for first in range(len(alpha((bs + (3,))[0], tier)) - (1 if bs else 0)):
             out.append({"what": "getitem", "bs": list(bs), "kind": k1, "N": 3, "first": first, "tier": tier})
